@@ -77,12 +77,12 @@ inductive DefKind where
   | cbuf (ord : Nat) (name : String) (group : Option Nat) (members : List String)
   /-- `entry = some 'c'`: compute entry point (one parameter) -/
   | func (ord : Nat) (name : String) (params : List Nat) (body : List BTok) (entry : Option Char)
-  deriving Repr, Inhabited
+  deriving DecidableEq, Repr, Inhabited
 
 structure Def where
   ns : Option Nat
   kind : DefKind
-  deriving Repr, Inhabited
+  deriving DecidableEq, Repr, Inhabited
 
 structure Program where
   nss : List (Option Nat × String)
@@ -91,7 +91,7 @@ structure Program where
   localNames : List String
   /-- the entry points of the pipeline (function ordinals) and its default bind group; `none` = no pipeline -/
   pipeline : Option (List Nat × Option Nat)
-  deriving Repr, Inhabited
+  deriving DecidableEq, Repr, Inhabited
 
 /-! ## facts about the definitions -/
 
